@@ -196,6 +196,15 @@ def drive_gis(p, rng):
                             xy = np.array([[rng.uniform(-1, nc + 1), rng.uniform(-1, nr + 1)] for _ in range(npts)]).reshape(npts, 2)
                             p.call('grid.voronoi|%d' % npts, G.voronoi, ca, xy)
                         p.call('grid.voronoi|width3', G.voronoi, ca, np.zeros((2, 3)))
+        # compact (rectangular) areas against coarse grids that are not aligned with them: every coarse cell of the overlap is touched
+        if nr >= 2 and nc >= 2:
+            ca = Catchment('c', fd)
+            ca._idxcells_area = np.arange(n, dtype=np.int64); ca._idxcells_area_filled = ca._idxcells_area
+            for ratio, off in ((2.0, 1.0), (2.0, 0.5), (1.5, 0.25), (3.0, 1.0)):
+                gg = Grid('coarse', ncols=int(nc / ratio) + 2, nrows=int(nr / ratio) + 2, cellsize=fd.cellsize * ratio,
+                          xllcorner=fd.xllcorner - off * fd.cellsize, yllcorner=fd.yllcorner - off * fd.cellsize)
+                p.call('Catchment.intersect|dense misaligned', ca.intersect, gg)
+                p.call('Catchment.intersect|dense misaligned filled', ca.intersect, gg, True)
         for start in (0, n - 1, -1, n):
             for nval in (0, 1, n + 1):
                 p.call('grid.delineate_river', G.delineate_river, fd, start, nval)
